@@ -130,7 +130,14 @@ func main() {
 		if *stream == "main" || *stream == "both" {
 			// scripted scenarios first (deterministic corner cases), then random histories
 			for _, s := range scripts {
-				hists = append(hists, histDesc{Stream: "main", HSeed: rng.U64() % 1_000_000, Blocks: s.blocks, Mask: allFeatures, Script: s.name})
+				hs := rng.U64() % 1_000_000
+				hists = append(hists, histDesc{Stream: "main", HSeed: hs, Blocks: s.blocks, Mask: allFeatures, Script: s.name})
+				if s.name == "zerogasfee" {
+					// once with the transactions also going through CheckTx first (even seed), once
+					// straight into a block (odd seed: the failure in DELIVERY)
+					hists[len(hists)-1].HSeed = hs | 1
+					hists = append(hists, histDesc{Stream: "main", HSeed: hs &^ 1, Blocks: s.blocks, Mask: allFeatures, Script: s.name})
+				}
 			}
 			for i := 0; i < *cases; i++ {
 				hists = append(hists, histDesc{Stream: "main", HSeed: rng.U64() % 1_000_000_000, Blocks: *blocks, Mask: allFeatures})
